@@ -769,7 +769,7 @@ def check_formula(item):
 def make_runs(tier):
     rnd = random.Random(seed() * 7919 + 10)
     seeds = collect_seeds()
-    n_mut = 1000 if tier == "quick" else 8000
+    n_mut = 700 if tier == "quick" else 8000
     light = [s for s in seeds if s[2]]
     runs = []
     # every seed unmutated through the bare pipeline; the light ones through the whole lifecycle
